@@ -291,7 +291,7 @@ def s_unit_inj(cb):
     recs = dict(S_RECS)
     recs['S_'] = r'^ffsm2::detail::S_<2,.*,C>$'
     recs['A_'] = r'^ffsm2::detail::A_<Inj1,Inj2,Inj3>$'
-    return dict(id='structure.S_inj.%s' % fn, witness=W, recs=recs, opaque=OPAQUE, props=['C15', 'C18'] + (['C02', 'C03'] if 'Guard' in fn else []),
+    return dict(id='structure.S_inj.%s' % fn, witness=W, recs=recs, opaque=OPAQUE, props=['C15', 'C18'] + (['C02', 'C03'] if 'Guard' in fn else []) + (['C01', 'C02'] if cb in ('enter', 'reenter', 'exit') else []),
                 target=dict(cls=recs['S_'], name=fn, nparams=2 if ev else 1),
                 consts=S_CONSTS, need_consts=['ArgsT.STATE_COUNT'], ghost=GHOST + ['uint32_t g_ti[16][3]; uint8_t g_sti[16][3];'],
                 calls=S_CALLS, contracts=contracts,
@@ -634,6 +634,9 @@ R_PT = dict(
               'g_root_entered && g_entered == ' + R_ACT, t_default('(*currentTransition)'), 'g_rounds == 0', '!g_has_surv'] + zero(LIFE1, (1,)),
     assigns=PT_ASSIGNS,
     ensures=[('C04', 'g_rounds <= ' + LIM),
+             # progress: processing stops early only because nothing is outstanding any more -- a request still outstanding at the
+             # end has seen the full number of rounds (C02: a request takes effect when the machine next processes requests)
+             ('C02,C04', '(%s || g_rounds == %s)' % (t_empty(RC + '.request'), LIM)),
              ('C02', implies('g_has_surv', '%s == g_surv._b0.destination' % R_ACT)),
              ('C02', implies('!g_has_surv', '%s == __CPROVER_old(%s)' % (R_ACT, R_ACT))),
              ('C02', implies('!g_has_surv', '%s == 0 && %s == 0 && %s == 0' % (tk(2, 1), tk(3, 1), tk(12, 1)))),
@@ -646,7 +649,7 @@ R_PT = dict(
             + [('C02', implies('g_has_surv', x)) for x in life_effect('__CPROVER_old(%s)' % R_ACT, 'g_surv._b0.destination')],
     loops={0: dict(
         assigns=['i', 'pendingTransition'] + PT_ASSIGNS,
-        invariant=['i <= ' + LIM, 'g_rounds <= i', 'g_clock <= __CPROVER_loop_entry(g_clock) + 100u * i', 'g_clock >= __CPROVER_loop_entry(g_clock)',
+        invariant=['i <= ' + LIM, 'g_rounds <= i', '(%s || g_rounds == i)' % t_empty(RC + '.request'), 'g_clock <= __CPROVER_loop_entry(g_clock) + 100u * i', 'g_clock >= __CPROVER_loop_entry(g_clock)',
                    'control._currentTransition == currentTransition && control._b0._core == &self->_core && control._b0._originId == 255',
                    implies('g_has_surv', t_eq('(*currentTransition)', 'g_surv') + ' && g_surv._b0.destination < ' + N),
                    implies('!g_has_surv', t_default('(*currentTransition)')),
@@ -831,6 +834,7 @@ R_IE = dict(
     assigns=IE_ASSIGNS,
     ensures=[# C04: one evaluation of the initial state's entry guards plus at most LIMIT redirections
              ('C04', 'g_rounds <= (uint32_t)%s + 1' % LIM),
+             ('C02,C04', '(%s || g_rounds == (uint32_t)%s + 1)' % (t_empty(RC + '.request'), LIM)),
              # C14 / C02: the first declared state is the initial state unless an entry guard redirected (last surviving redirect wins)
              ('C02,C14', '%s == (g_has_surv ? g_surv._b0.destination : 0)' % R_ACT),
              ('C11', implies('g_has_surv', t_eq(RC + '.previousTransition', 'g_surv'))),
@@ -839,7 +843,7 @@ R_IE = dict(
              ('C04', REQ_INV[0]), ('C04', REQ_INV[1])] + INV_POST,
     loops={0: dict(
         assigns=['i', 'pendingTransition', 'currentTransition'] + IE_ASSIGNS,
-        invariant=['i <= ' + LIM, 'g_rounds <= (uint32_t)i + 1', 'g_clock <= __CPROVER_loop_entry(g_clock) + 100u * i', 'g_clock >= __CPROVER_loop_entry(g_clock)',
+        invariant=['i <= ' + LIM, 'g_rounds <= (uint32_t)i + 1', '(%s || g_rounds == (uint32_t)i + 1)' % t_empty(RC + '.request'), 'g_clock <= __CPROVER_loop_entry(g_clock) + 100u * i', 'g_clock >= __CPROVER_loop_entry(g_clock)',
                    'control._currentTransition == &currentTransition && control._b0._core == &self->_core && control._b0._originId == 255',
                    implies('g_has_surv', t_eq('currentTransition', 'g_surv') + ' && g_surv._b0.destination < ' + N),
                    implies('!g_has_surv', t_default('currentTransition')),
